@@ -54,6 +54,18 @@ def one(rng):
                 l = Line("pred", "P.C08.file", [enc, "", lenc], note="writer raised " + proto.err_name(e))
                 l.expect = "writer-must-not-fail"
                 lines.append(l)
+    # "plus its lexicon count as a tag": with the lexicon embedded, every TAG -> word rule carries that pair's count
+    if rng.random() < 0.5:
+        with cli.Scratch() as sc:
+            try:
+                with quiet():
+                    grammaroutput.pmcfg(g, lex, sc.path("lg"), "utf-8", lex_in_grammar=True)
+                gl = gram.file_lines(sc.path("lg") + ".pmcfg")
+                lines.append(Line("pred", "P.C08.lexrules", [gram.enc_lines(gl), lenc]))
+            except Exception as e:
+                l = Line("pred", "P.C08.lexrules", ["", lenc], note="writer raised " + proto.err_name(e))
+                l.expect = "writer-must-not-fail"
+                lines.append(l)
     # root occurrences: the LoPar start-symbol file of a context-free treebank grammar carries them
     if all(len(lin) <= 1 for f in g for lin in g[f]) and rng.random() < 0.7:
         with cli.Scratch() as sc:
